@@ -890,6 +890,85 @@ def corpus_generations():
 
 # ---------------------------------------------------------------- entry points
 
+# ---- round 10: SNREFs are resolved in the view of the referring layer AFTER inheritance, and that view honours the NOT-INHERITED lists of
+# its PARENT-REFs. Small enumerated family with expectations read from the ODX rules alone (no model: the link model has no NOT-INHERITED
+# lists): a functional group P and a base variant BV (parent P) each offer an object X of the kind; an ECU variant EV with PARENT-REFs to
+# BV and P (both orders) refers to X by short name; NOT-INHERITED-<kind> X on no / the BV / the P / both references.
+NI_KINDS = {
+    "table": ("TABLES", '<TABLE ID="{lid}.X"><SHORT-NAME>X</SHORT-NAME><KEY-LABEL>{lid}</KEY-LABEL></TABLE>',
+              '<PARAM xsi:type="TABLE-KEY" ID="{lid}.RQ.key"><SHORT-NAME>p</SHORT-NAME><BYTE-POSITION>0</BYTE-POSITION><TABLE-SNREF SHORT-NAME="X"/></PARAM>',
+              "NOT-INHERITED-TABLES", "NOT-INHERITED-TABLE", "TABLE-SNREF", lambda prm: prm.table),
+    "dop": ("DATA-OBJECT-PROPS", '<DATA-OBJECT-PROP ID="{lid}.X"><SHORT-NAME>X</SHORT-NAME><COMPU-METHOD><CATEGORY>IDENTICAL</CATEGORY></COMPU-METHOD>'
+            '<DIAG-CODED-TYPE BASE-DATA-TYPE="A_UINT32" xsi:type="STANDARD-LENGTH-TYPE"><BIT-LENGTH>8</BIT-LENGTH></DIAG-CODED-TYPE>'
+            '<PHYSICAL-TYPE BASE-DATA-TYPE="A_UINT32"/></DATA-OBJECT-PROP>',
+            '<PARAM xsi:type="VALUE"><SHORT-NAME>p</SHORT-NAME><BYTE-POSITION>0</BYTE-POSITION><DOP-SNREF SHORT-NAME="X"/></PARAM>',
+            "NOT-INHERITED-DOPS", "NOT-INHERITED-DOP", "DOP-BASE-SNREF", lambda prm: prm.dop),
+}
+
+
+def ni_document(kind, order, excl):
+    sect, obj, param, nis, ni, sn, _ = NI_KINDS[kind]
+
+    def ddds(lid):
+        return f"<DIAG-DATA-DICTIONARY-SPEC><{sect}>{obj.format(lid=lid)}</{sect}></DIAG-DATA-DICTIONARY-SPEC>"
+
+    def pref(target, tkind):
+        x = f'<{nis}><{ni}><{sn} SHORT-NAME="X"/></{ni}></{nis}>' if target in excl else ""
+        return f'<PARENT-REF ID-REF="{target}" xsi:type="{tkind}-REF">{x}</PARENT-REF>'
+    refs = {"BV": pref("BV", "BASE-VARIANT"), "P": pref("P", "FUNCTIONAL-GROUP")}
+    return ('<?xml version="1.0" encoding="UTF-8"?><ODX MODEL-VERSION="2.2.0" xmlns:xsi="http://www.w3.org/2001/XMLSchema-instance">'
+            '<DIAG-LAYER-CONTAINER ID="DLC"><SHORT-NAME>DLC</SHORT-NAME>'
+            f'<FUNCTIONAL-GROUPS><FUNCTIONAL-GROUP ID="P"><SHORT-NAME>P</SHORT-NAME>{ddds("P")}</FUNCTIONAL-GROUP></FUNCTIONAL-GROUPS>'
+            f'<BASE-VARIANTS><BASE-VARIANT ID="BV"><SHORT-NAME>BV</SHORT-NAME>{ddds("BV")}'
+            '<PARENT-REFS><PARENT-REF ID-REF="P" xsi:type="FUNCTIONAL-GROUP-REF"/></PARENT-REFS></BASE-VARIANT></BASE-VARIANTS>'
+            '<ECU-VARIANTS><ECU-VARIANT ID="EV"><SHORT-NAME>EV</SHORT-NAME>'
+            f'<REQUESTS><REQUEST ID="EV.RQ"><SHORT-NAME>RQ</SHORT-NAME><PARAMS>{param.format(lid="EV")}</PARAMS></REQUEST></REQUESTS>'
+            f'<PARENT-REFS>{"".join(refs[t] for t in order)}</PARENT-REFS></ECU-VARIANT></ECU-VARIANTS>'
+            '</DIAG-LAYER-CONTAINER></ODX>')
+
+
+def ni_expected(excl):
+    """the base variant outranks the functional group; an excluded reference offers nothing; nothing visible = dangling"""
+    return "BV.X" if "BV" not in excl else "P.X" if "P" not in excl else None
+
+
+def ni_observe(kind, xml):
+    import xml.etree.ElementTree as ET
+    from odxtools.database import Database
+    from odxtools.exceptions import OdxError
+    try:
+        with warnings.catch_warnings():
+            warnings.simplefilter("ignore")
+            db = Database()
+            db._process_xml_tree(ET.fromstring(xml))
+            db.refresh()
+        prm = db.ecu_variants.EV.requests.RQ.parameters.p
+        return "bound:" + NI_KINDS[kind][6](prm).odx_id.local_id
+    except OdxError:
+        return "odxerror"
+    except Exception as e:  # noqa
+        return "foreign:" + type(e).__name__
+
+
+def not_inherited_family(ctx):
+    for kind in NI_KINDS:
+        for order in (("BV", "P"), ("P", "BV")):
+            for excl in ((), ("BV",), ("P",), ("BV", "P")):
+                xml = ni_document(kind, order, excl)
+                want = ni_expected(excl)
+                got = ni_observe(kind, xml)
+                ctx.case(("not-inherited", kind, order, excl), nontrivial=True)
+                ctx.histo("family", "enum-not-inherited")
+                ctx.histo("not-inherited outcome", got.split(":")[0])
+                ok = (got == "bound:" + want) if want is not None else (got == "odxerror")
+                if not ok:
+                    ctx.violate("snref-target", ["database", "not-inherited", kind, "excluded:" + ("+".join(excl) or "none")], got,
+                                {"kind": "not-inherited", "ni_kind": kind, "order": list(order), "excluded": list(excl), "xml": xml,
+                                 "expected": want or "strict load raises an OdxError (dangling SNREF)"},
+                                f"{NI_KINDS[kind][5]} 'X' of an ECU variant with PARENT-REFs {order} and {NI_KINDS[kind][3]} X on {excl or 'no reference'}: "
+                                f"expected {want or 'an OdxError (nothing visible)'}, observed {got}")
+
+
 def run(ctx):
     big = ctx.tier == "thorough"
     rng = ctx.rng
@@ -897,6 +976,7 @@ def run(ctx):
     if not drv.available():
         ctx.notes.append("driver drv_odxlink not built: correspondence skipped")
         return
+    not_inherited_family(ctx)
     # class table used by the generator vs the live classes (isinstance relation)
     try:
         import odxtools.basicstructure, odxtools.structure, odxtools.dataobjectproperty, odxtools.dopbase, odxtools.table  # noqa
@@ -999,6 +1079,10 @@ def run_enum_hierarchies(ctx, drv, scopes):
 
 def replay(ctx, data):
     w = data["witness"]
+    if w.get("kind") == "not-inherited":
+        want = ni_expected(tuple(w["excluded"]))
+        got = ni_observe(w["ni_kind"], w["xml"])
+        return (got == "bound:" + want) if want is not None else (got == "odxerror")
     if w.get("kind") == "history":
         return replay_history(w["ops"])
     if w.get("kind") == "snref":
